@@ -89,7 +89,7 @@ def undo_renames(tree, relpath):
     done = {}
     for qn, f in qualnames(tree):
         r = ref.get(qn)
-        if not r:
+        if not isinstance(r, dict) or not r.get("locals"):
             continue
         seq, params = binding_sequence(f)
         if len(seq) != len(r["locals"]) or [k for _, k in seq] != [k for _, k in r["locals"]] or sorted(params) != sorted(r["params"]):
